@@ -166,7 +166,7 @@ def compare(p, sv, rv):
 
 
 # ------------------------------------------------------------------ run a family
-def run_family(ctx, znh, progs, tag, workers=16, timeout=1500, wd=4.0):
+def run_family(ctx, znh, progs, tag, workers=16, timeout=3000, wd=4.0):
     """progs: list of program dicts (ids assigned here). Returns stats; reports violations on ctx."""
     for i, p in enumerate(progs):
         p["id"] = i + 1
